@@ -33,17 +33,60 @@ def two_close_decks(k, seed):
     return _df(rows), {'k': k, 'seed': seed, 'layout': f'close_decks(base={base},gap={gap},n={ndeck},{order})', 'ceilos': names, 'rows': len(rows)}
 
 
+def converging_sublayers(k, seed):
+    """one group made of two sub-layers that approach each other with time; rows ascending / descending / shuffled"""
+    rng = random.Random(seed * 31 + k)
+    n = 160
+    sep_old, sep_new = rng.uniform(300, 700), rng.uniform(150, 320)
+    rows = []
+    for i in range(n):
+        dt = -1590 + 10 * i
+        frac = i / (n - 1)
+        h = 3000 + rng.gauss(0, 12) if i % 2 == 0 else 3000 + sep_old + (sep_new - sep_old) * frac + rng.gauss(0, 12)
+        rows.append(('A', dt, h, 1))
+    order = ['asc', 'desc', 'shuffled'][k % 3]
+    if order == 'desc':
+        rows.reverse()
+    elif order == 'shuffled':
+        rng.shuffle(rows)
+    return _df(rows), {'k': k, 'seed': seed, 'layout': f'converging_sublayers({order})', 'ceilos': ['A'], 'rows': n}
+
+
+def excluded_flat_plus_alternating(k, seed):
+    """ceilometer B (to be excluded) reads a flat layer, ceilometer A alternates between two heights a bit above it"""
+    rng = random.Random(seed * 33 + k)
+    lo = rng.choice([1000, 2500, 6000])
+    d1, d2 = rng.choice([(200, 440), (150, 380), (220, 470)])
+    rows = []
+    for i in range(60):
+        t = -1190 + 20 * i
+        rows.append(('B', t, lo + rng.gauss(0, 3), 1))
+        rows.append(('A', t + 1, lo + (d1 if i % 2 == 0 else d2) + rng.gauss(0, 3), 1))
+    return _df(rows), {'k': k, 'seed': seed, 'layout': f'excluded_flat_plus_alternating({lo},{d1},{d2})', 'ceilos': ['A', 'B'], 'rows': len(rows)}
+
+
 def check(k, seed):
     rng = random.Random(seed * 5 + k)
-    df, desc = two_close_decks(k, seed) if k % 3 else scene(k, seed)
+    kind = k % 6
+    if kind == 4:
+        df, desc = converging_sublayers(k, seed)
+    elif kind == 5:
+        df, desc = excluded_flat_plus_alternating(k, seed)
+    else:
+        df, desc = two_close_decks(k, seed) if k % 3 else scene(k, seed)
     prms = prms_variant(k, seed)
     prms.pop('MSA', None)
     if rng.random() < 0.5:
         prms['MIN_SEP_VALS'], prms['MIN_SEP_LIMS'] = rng.choice([([250, 1000], [10000]), ([100, 400, 1200], [2000, 9000]), ([300], [])])
     prms['BASE_LVL_LOOKBACK_PERC'] = rng.choice([100, 100, 50, 30])
-    excl = len(desc['ceilos']) > 1 and rng.random() < 0.4
+    excl = len(desc['ceilos']) > 1 and (rng.random() < 0.4 or kind == 5)
     if excl:
         prms['EXCLUDE_FOR_BASE_HEIGHT_CALC'] = [desc['ceilos'][-1]]
+    if kind in (4, 5):
+        for key in ('MAX_HITS_OKTA0', 'MAX_HOLES_OKTA8', 'BASE_LVL_HEIGHT_PERC', 'MIN_SEP_VALS', 'MIN_SEP_LIMS'):
+            prms.pop(key, None)
+        if kind == 4:
+            prms['BASE_LVL_LOOKBACK_PERC'] = rng.choice([50, 30, 100])
     fails = []
     try:
         chunk = run_quiet(df, prms)
@@ -70,7 +113,9 @@ def check(k, seed):
             # only when no sub-layers were re-merged: as many layers as the mixture model distinguishes (2 of 2, 3 of 3):
             # ncomp == number of layers is what we can observe; a re-merge shows as ncomp < components tried, not observable here
             for a, b in zip(lb, lb[1:]):
-                if b - a < ms - 1e-9 and int(grow['ncomp']) == 3 or (b - a < ms - 1e-9 and int(grow['ncomp']) == 2 and _two_distinct(data, grow)):
+                # "no sub-layers re-merged" is observable only for 3 of 3 components, or for the designed two-sub-layer scenes
+                # (a 2-layer split there comes from the 2-component model: nothing re-merged)
+                if b - a < ms - 1e-9 and (int(grow['ncomp']) == 3 or kind == 4 or _two_distinct(data, grow)):
                     fails.append(f'layers of group {grow["cluster_id"]} at {a:.1f} and {b:.1f} ft are {b-a:.1f} ft apart, minimum {ms}')
     return desc, prms, fails, None
 
